@@ -145,7 +145,9 @@ def cases(tier, seed):
     out = []
     for pot in POTS:
         for mass in ("unit", "diag"):
-            for eps in (0.1, 0.5, 1.3):
+            # step sizes inside the leapfrog stability region of the potential on the grid (eps * omega_max < 2):
+            # outside it trajectories blow up to 1e60 and round-off, not the algorithm, decides every comparison
+            for eps in ((0.1, 0.3, 0.5) if pot == "quartic" else (0.1, 0.5, 0.9) if pot in ("quad2d",) else (0.1, 0.5, 1.1)):
                 out.append(dict(kind="leapfrog", pot=pot, mass=mass, eps=eps))
                 for L in (1, 3):
                     out.append(dict(kind="hmc", pot=pot, mass=mass, eps=eps, L=L))
@@ -153,18 +155,18 @@ def cases(tier, seed):
         out.append(dict(kind="momentum", mass=mass))
     # NUTS: one case per (orbit, start index); the orbit identity is checked in finish()
     orbits = []
-    D1 = [("quartic", "unit", 0.9, (0.3, 1.1)), ("quad", "diag", 1.3, (0.8, -0.4)), ("cos", "unit", 1.1, (0.2, 1.4)),
+    D1 = [("quartic", "unit", 0.6, (0.3, 1.1)), ("quad", "diag", 1.1, (0.8, -0.4)), ("cos", "unit", 1.1, (0.2, 1.4)),
           ("quad2d", "unit", 0.7, (0.5, -0.3, 0.4, 0.9))]
     for bias in (True, False):
         for (pot, mass, eps, z0) in D1:
             orbits.append(dict(pot=pot, mass=mass, eps=eps, z0=list(z0), D=1, bias=bias))
-    D2 = [("quartic", "unit", 0.9, (0.3, 1.1))] if tier == "quick" else \
-        [("quartic", "unit", 0.9, (0.3, 1.1)), ("quad", "diag", 1.3, (0.8, -0.4)), ("quad2d", "unit", 0.7, (0.5, -0.3, 0.4, 0.9))]
+    D2 = [("quartic", "unit", 0.6, (0.3, 1.1))] if tier == "quick" else \
+        [("quartic", "unit", 0.6, (0.3, 1.1)), ("quad", "diag", 1.1, (0.8, -0.4)), ("quad2d", "unit", 0.7, (0.5, -0.3, 0.4, 0.9))]
     for bias in ((True,) if tier == "quick" else (True, False)):
         for (pot, mass, eps, z0) in D2:
             orbits.append(dict(pot=pot, mass=mass, eps=eps, z0=list(z0), D=2, bias=bias))
     if tier == "thorough":
-        orbits.append(dict(pot="quartic", mass="unit", eps=0.9, z0=[0.3, 1.1], D=3, bias=True))
+        orbits.append(dict(pot="quartic", mass="unit", eps=0.6, z0=[0.3, 1.1], D=3, bias=True))
     for oi, o in enumerate(orbits):
         W = 2 ** (o["D"] + 1) - 1
         for k in range(-W - 1, W + 2):
@@ -191,6 +193,9 @@ def _orbit(c, lo, hi):
     for k in range(-1, lo - 1, -1):
         z = stepper(-c["eps"], invm, z)
         orb[k] = z
+    big = max(float(np.abs(np.asarray(z.position)).max() + np.abs(np.asarray(z.momentum)).max()) for z in orb.values())
+    if big > 50.:
+        raise RuntimeError("harness: unstable leapfrog orbit chosen (|z| up to %.3g)" % big)
     return orb, H
 
 
